@@ -3,7 +3,7 @@
 From Coq Require Import NArith ZArith List Bool Lia ZifyN ZifyBool.
 From Rawr Require Import Consts Bits Magic Position MoveGen MakeMove MakeStages Rules Abs KeySpec
                          BitsFacts ShiftFacts FlipFacts AbsFacts LsbFacts HashFacts MakeFacts MakeAbs CastleFacts CastleAbs KeyAbs KeyMove
-                         AttackFacts CountFacts GenSane GenNoDup NotationFacts Closure.
+                         AttackFacts AttackAbs CountFacts GenSane GenNoDup NotationFacts Closure.
 Import ListNotations.
 Local Open Scope N_scope.
 Ltac Zify.zify_post_hook ::= Z.div_mod_to_equations.
@@ -168,3 +168,20 @@ Proof.
   intros e He. destruct (g_ep q G e He) as ((_ & Hlt) & _). exact Hlt.
 Qed.
 
+
+(* ------------------------------------------------------------------ passing when not in check leaves the passer not in check *)
+Theorem null_safe p : Inv p -> in_check p = false -> in_check_them (makenull p) = false.
+Proof.
+  intros I Hc. pose proof (iv_good p I) as G. set (q := makenull p).
+  destruct (null_our_king p I) as (K2 & EK2). destruct (null_their_king p I) as (K1 & _). fold q in K1, K2, EK2.
+  destruct (king_holds p G) as (_ & HU64). fold (uksq p) in HU64.
+  unfold in_check_them. fold (tksq q). rewrite EK2.
+  rewrite (attack_query_is_the_rules q (flip_sq (uksq p)) true (null_WF p (g_wf p G)) (null_BB8 p) (flip_sq_lt _ HU64) K1).
+  unfold in_check in Hc. fold (uksq p) in Hc.
+  rewrite (attack_query_is_the_rules p (uksq p) false (g_wf p G) (g_bb p G) HU64 (iv_tking p I)) in Hc.
+  rewrite <- Hc. unfold Abs.spec_attacked.
+  assert (Eb : Abs.board_of q = Abs.board_of p).
+  { unfold q. rewrite makenull_board. rewrite board_of_flip; [reflexivity|exact (g_dis p G)]. }
+  assert (Et : turn q = negb (turn p)) by reflexivity.
+  rewrite Eb, Et. unfold Abs.rel_sq. rewrite Et. destruct (turn p); cbn [negb]; rewrite ?flip_sq_invol; reflexivity.
+Qed.
